@@ -368,3 +368,31 @@ pci_mmio_harness! {
 #[kani::unwind(26)]
 fn c13_bounds_pci_mac() { cfg_bounds_body::<[u8; 6]>(6, 1) }
 }
+
+// C08 on the real PCI transport: begin_init / finish_init register sequence on the common configuration window
+// @harness props=C08,C11 tier=quick timeout=900 stubbed=mmio
+pci_mmio_harness! {
+#[kani::proof]
+#[kani::unwind(50)]
+fn c08_pci_begin_init() {
+    let mut t = mk_pci(8, 2);
+    let (lo, hi): (u32, u32) = (kani::any(), kani::any());
+    unsafe { SEL_OFF = 4; SEL_SRC_OFF = 0; SEL_VAL = [lo, hi]; }
+    let offered = (lo as u64) | ((hi as u64) << 32);
+    let supported: u64 = kani::any();
+    kani::assume(supported & (1 << 32) != 0);
+    let neg = t.begin_init(crate::device::common::Feature::from_bits_retain(supported));
+    let want = crate::device::common::Feature::from_bits_truncate(offered).bits() & supported;
+    assert!(neg.bits() == want, "C08: negotiated features must be offered AND supported");
+    assert!(tr_at(0, 20, true, 1, 0) && tr_at(1, 20, true, 1, 3), "C08: reset, then ACKNOWLEDGE|DRIVER");
+    assert!(tr_at(2, 0, true, 4, 0) && tr_at(3, 4, false, 4, lo as u64) && tr_at(4, 0, true, 4, 1) && tr_at(5, 4, false, 4, hi as u64), "C08: device features read after ACKNOWLEDGE|DRIVER");
+    assert!(tr_at(6, 8, true, 4, 0) && tr_at(7, 12, true, 4, want & 0xffff_ffff) && tr_at(8, 8, true, 4, 1) && tr_at(9, 12, true, 4, want >> 32), "C08: driver features written before FEATURES_OK");
+    assert!(tr_len() == 11 && tr_at(10, 20, true, 1, 11), "C08: FEATURES_OK set after the features are written, nothing else");
+    tr_reset();
+    t.finish_init();
+    assert!(tr_len() == 1 && tr_at(0, 20, true, 1, 15), "C08: finish_init sets DRIVER_OK on top of the other bits");
+    core::mem::forget(t);
+    kani::cover!(want & (1 << 32) != 0);
+    kani::cover!(offered != want);
+}
+}
